@@ -54,11 +54,18 @@ PROPS = {
                       "(sum sizes(functions), sum sizes(variables)), without touching the disciplines' Jacobians; that split_jac is the inverse column "
                       "slicing (exact key sets); that AUTO resolves to DIRECT iff n_variables <= n_functions; and, over an abstract matrix ring, that "
                       "CoupledSystem._direct_mode (column by column) and _adjoint_mode (row by row, transposed system) both return "
-                      "dF/dx - dF/dy (dR/dy)^-1 dR/dx for every requested function, hence agree with each other and with the closed form.",
+                      "dF/dx - dF/dy (dR/dy)^-1 dR/dx for every requested function, hence agree with each other and with the closed form; "
+                      "and that every Jacobian-operator wrapper of jacobian_operator.py (real casting, adjoint/T, identity, sum, difference and the "
+                      "three compositions, with operators or real arrays) applies in _matvec the matrix it denotes and in _rmatvec its conjugate "
+                      "transpose (Re(A x) / Re(A^H x) for the real casting), and that real / T / + / - / @ / shift_identity build the right wrapper "
+                      "over the right operands with the shape of the denoted matrix.",
         "level_note": "Trusted: pyvc, z3, reals for floats. ASSUMED (not verified, listed per function in the evidence): the block-placement contracts of "
                       "scipy.sparse eye / csr_matrix / bmat (pyvc/plug_np_c07.py); the textbook identities of the matrix ring (plug_np_c07.ring_axioms: "
                       "row/column of products, (XY)^T = Y^T X^T, (X^T)^-1 = (X^-1)^T, associativity, extensionality by rows/columns); an exact linear "
-                      "solver (solution = lhs^-1 rhs for every algorithm/option, invertible lhs); the shapes of the disciplines' partial Jacobians agree "
+                      "solver (solution = lhs^-1 rhs for every algorithm/option, invertible lhs); scipy's LinearOperator protocol (matvec(x) = A x, "
+                      "rmatvec(x) = A^H x for an operator denoting A, __init__ stores dtype/shape) and the identities of the conjugate transpose "
+                      "(plug_np_c07.operator_axioms); scipy's tocsr()/tocsc() return the object itself when it already has the format (format = "
+                      "uninterpreted predicate, so the no-alias frame of the generator holds for every format); the shapes of the disciplines' partial Jacobians agree "
                       "with `sizes`. Induction lemmas (prefix-sum congruence / monotonicity, last occurrence) are proved as base + step SMT lemmas. One known "
                       "finding (IndexError for empty functions/variables), see known_findings.json.",
         "design_ref": "DESIGN.md §4 C07",
@@ -67,8 +74,12 @@ PROPS = {
                         "bmat(blocks) places block (a, b) at the prefix sums of the block-row heights / block-column widths, zeros where a block is None",
                         "jac[f][v].shape == (sizes[f], sizes[v]) for the linearized disciplines (precondition)",
                         "matrix ring identities (22 axioms listed in plug_np_c07.ring_axioms)", "LinearSolverLibraryFactory.execute solves lhs x = rhs exactly (lhs invertible)",
-                        "shape (broadcast) errors of row/column assignments are not modelled in the ring model"],
-        "not_covered": ["LINEAR_OPERATOR representation (AssembledJacobianOperator)", "JacobianOperator partial Jacobians", "iterative-solver accuracy, conditioning",
+                        "shape (broadcast) errors of row/column assignments are not modelled in the ring model",
+                        "LinearOperator protocol: matvec(x) = A x, rmatvec(x) = A^H x, __init__(dtype, shape) stores both; dimension-mismatch errors not modelled",
+                        "conjugate-transpose / distributivity identities (13 axioms listed in plug_np_c07.operator_axioms)",
+                        "array operands of the operator wrappers are real (precondition, from their type SparseOrDenseRealArray)"],
+        "not_covered": ["LINEAR_OPERATOR representation (AssembledJacobianOperator)", "JacobianOperator partial Jacobians inside the assembly", "JacobianOperator.copy / get_matrix_representation",
+                        "iterative-solver accuracy, conditioning",
                         "LU variants (_direct_mode_lu, _adjoint_mode_lu) and the dispatchers direct_mode / adjoint_mode", "compute_newton_step",
                         "_compute_diff_ios_and_couplings (cache key), _check_inputs", "total_derivatives end to end", "compute_sizes", "residuals", "plot_dependency_jacobian"],
     },
@@ -193,7 +204,10 @@ PROPS = {
                       "DOE loop (BaseDOELibrary._run, n_processes <= 1): loop invariant 'samples 0..k-1 have each been handed once, in order, to "
                       "EvaluationProblem.evaluate_functions' (ghost evaluation log), a failing sample (ValueError) is skipped, termination criteria propagate, "
                       "nothing else is raised; with Database.store's order clauses an induction lemma gives: keys created by earlier samples precede keys "
-                      "created by later ones.",
+                      "created by later ones. Two budget clauses FAIL on the pinned tree and are recorded as known findings, each proved outside its failing "
+                      "region and replayed on the real code at every run: 'LagrangeMultipliers.__init__ leaves the evaluation counter of the problem "
+                      "unchanged' (region counter-is-nonzero) and 'once the maximum is reached the evaluation entry points of ProblemFunction evaluate nothing' "
+                      "for the entry points used without a database (_compute_output / _compute_jacobian@no-database, region database-not-used).",
         "level_note": "Trusted: pyvc, z3; opaque arrays; listeners are opaque callables logged in a ghost call log (their effect on the counter is linked by the lemma, "
                       "not by store's frame). Driver side: plugin pyvc/plug_c03.py (bound methods as opaque callables compared by (object, name); list "
                       "membership as a function symbol whose handed-over consequences are proved in ListMembershipLemmas; list.remove; logging-only branches "
@@ -203,9 +217,14 @@ PROPS = {
                       "EvaluationProblem.get_functions / evaluate_functions, the numerical tolerance tests ObjectiveToleranceTester._check / "
                       "DesignToleranceTester._check, and the run summary of the abstract _pre_run / _run: they go through ProblemFunction only, keep the listener "
                       "lists, return or raise a TerminationCriterion (represented in execute by MaxIterReachedException and the base class = a subclass unknown "
-                      "to the code). One known finding (shared with C04): _get_result raises KeyError when feasible recorded points exist but none has an "
-                      "objective value, so a driver stopped by NaN raises instead of returning (replayed natively with DIFFERENTIAL_EVOLUTION / SHGO).",
+                      "to the code). The KeyError of _get_result for feasible points without objective value (shared with C04) is repaired in /repo (b727d31). "
+                      "Known findings (known_findings.json, confirmed by contracts/rt_c03.py on every run): (a) LagrangeMultipliers.__init__ resets the evaluation "
+                      "counter (reset(current_iter=True) by default) - with a KKT tolerance it is built at every stored point, so L-BFGS-B max_iter=5 "
+                      "kkt_tol_abs=1e-12 creates 30 database entries; OptimizationProblem/EvaluationProblem.reset is an assumed thin summary whose counter clause is "
+                      "checked against the source AST (ResetCounterClauseMatchesSource); (b) with use_database=False nothing tests the budget and nothing "
+                      "increments the counter: max_iter=5 gives 32 (L-BFGS-B), 45 (SLSQP), 8 (NLOPT_COBYLA) objective calls.",
         "design_ref": "DESIGN.md §4 C03",
+        "runtime": "contracts.rt_c03",
         "modules": ["contracts.c01_c03_evaluation", "contracts.c03_driver"],
         "assumptions": [
             "run summary (_RunPhase) of every _pre_run/_run override: evaluations go through ProblemFunction; the database's listener lists, the driver's own listener set and "
@@ -216,9 +235,9 @@ PROPS = {
             "c03_lmem(n, E, f) is defined as `exists i. 0 <= i < n and E[i] == f`; the first-occurrence choice of list.remove is CPython's",
             "DOE: user callbacks of the sequential loop are the default (none); samples are a sequence of opaque rows",
         ],
-        "not_covered": ["use_database=False (natively confirmed: no budget enforcement at all by gemseo - counter stays 0, L-BFGS-B max_iter=5 made 32 objective calls)",
-                        "KKT tolerances: LagrangeMultipliers.__init__ resets the evaluation counter mid-run (natively confirmed defect, see report; kkt_residual_computation, "
-                        "_KKTChecker, KKTConditionsTester are not under contract)",
+        "not_covered": ["use_database=False: known finding (no budget clause holds; only the failing clause on the two entry points is stated)",
+                        "kkt_residual_computation, _KKTChecker, KKTConditionsTester, LagrangeMultipliers.compute (only LagrangeMultipliers.__init__ is under contract: known finding); "
+                        "bodies of EvaluationProblem.reset / OptimizationProblem.reset (assumed summary, counter clause checked on the AST)",
                         "BaseOptimizationLibrary._pre_run / BaseDOELibrary._pre_run bodies (summarised), parallel DOE branch and __store_in_database (C13), DOE user callbacks",
                         "OptimizationResult.from_optimization_problem body (assumed; KeyError region of the C04 finding)", "third-party optimiser wrappers (_run of each library)",
                         "restart clause: BaseScenario.set_optimization_history_backup sets evaluation_counter.current = len(database) after loading a backup (pathlib / HDF I/O "
@@ -449,17 +468,21 @@ PROPS = {
                       "subset of distinct indices), the KS/IKS values and Jacobians equal the documented shifted exp/log formulas with exp/log uninterpreted; "
                       "frame: no array existing at entry (input point, vector operand, constraint values, constraint Jacobian) nor any array returned by an "
                       "operand function is modified. Sums are prefix sums; equal summands => equal sums is proved once by induction (PrefixSumLemmas). "
-                      "The check FAILS on the pinned tree on two genuine defects (product/quotient Jacobian of two vector-valued functions; in-place scaling of "
-                      "the caller's arrays by the max/KS/IKS aggregations), each with a finding region and a concrete run-time witness.",
+                      "The product and quotient rules are proved for every output dimension m >= 1 (rank-2 Jacobians: the values are reshaped to (m, 1) columns; "
+                      "rank-1 gradient of a number-valued function; number-valued function with a (1, n) Jacobian). MDOLinearFunction.normalize (dense and sparse "
+                      "CSR coefficients; contracts shared with C01, contracts/c01_preprocessing.py): the result is a new linear function with coefficients "
+                      "A diag(s) and offset A shift + b, and the operand's coefficients, offset and other attributes are untouched (no aliasing of the "
+                      "sparse arrays). Two defects found by these contracts were repaired (8b9981c product/quotient Jacobian of vector-valued functions; "
+                      "1e06522 in-place scaling of the caller's arrays by the max/KS/IKS aggregations), see known_findings.json `fixed`.",
         "level_note": "Trusted: pyvc, the numpy model (npmodel.py + plug_np_c10.py: ufunc functions, atleast_2d, tile, axis sums, max/argmax, heaviside, matrix-vector "
                       "product, in-place `a op= b` on array names), reals for floats (the shift by the maximum in KS/IKS only matters in floating point), exp/log "
                       "uninterpreted (positivity of exp only). Operand functions are deterministic and are called at the given point only. Not covered: the "
                       "MDOFunction objects built by __add__/__mul__/__neg__/offset/restrict (constructor wiring, names, expr), mixed number-/vector-valued operands, "
-                      "sparse coefficients, FunctionRestriction, LinearCompositeFunction, Concatenate, Taylor/convex-linear approximations, normalize, the bound side of "
+                      "FunctionRestriction, LinearCompositeFunction, Concatenate, Taylor/convex-linear approximations, the bound side of "
                       "KS/IKS, and the formula of three KS/IKS Jacobians for a subset of components (validated at run time only).",
         "design_ref": "DESIGN.md §4 C10",
         "runtime": "contracts.rt_c10",
-        "modules": ["contracts.c10_function_algebra"],
+        "modules": ["contracts.c10_function_algebra", "contracts.c01_preprocessing"],
         "assumptions": [
             "MDOFunction conventions (preconditions): f(x) is a vector of size m >= 1 with Jacobian of shape (m, len(x)), or a number with a gradient of shape (len(x),); both "
             "operands of a binary operation have the same output dimension (the result is built with dim = first_operand.dim); a vector operand has size m",
@@ -472,7 +495,7 @@ PROPS = {
             "lemma instances offered to the solver: congruence and positivity of prefix sums, proved by induction in PrefixSumLemmas",
         ],
         "not_covered": ["_OperationFunctionMaker.__init__ and MDOFunction.__add__/__sub__/__mul__/__truediv__/__neg__/offset (construction of the result object, names/expr/special_repr)",
-                        "MDOLinearFunction.__init__/__neg__/offset/restrict/normalize (construction; expression strings), sparse coefficient matrices",
+                        "MDOLinearFunction.__init__/__neg__/offset/restrict (construction; expression strings); sparse coefficient matrices outside normalize",
                         "mdo_quadratic_function.py, function_restriction.py, linear_composite_function.py, concatenate.py, taylor_polynomials.py, convex_linear_approx.py",
                         "mixed operands (vector-valued with number-valued function), vector `scale` in the aggregations, aggregation_func.py wrappers and ConstraintAggregation discipline",
                         "bound side of KS/IKS (KS_lower <= max <= KS_upper): not proved (lemmas `dominates` on prefix sums are available, exp/log monotonicity axioms not introduced)",
@@ -553,7 +576,17 @@ PROPS["C17"] = {
                   "FunctionFromDiscipline evaluates its adapter on exactly the gathered components of its input names and scatters the adapter's gradient "
                   "to the columns of these variables (zeros elsewhere); the IDF consistency constraint is (y(x) - y_copy)/norm_factor component-wise with "
                   "y_copy the coupling targets read from the design vector, hence zero exactly when y_copy = y(x) - outside the known finding below; "
-                  "IDF._update_design_space raises unless every coupling is a design variable and leaves the design space unchanged.",
+                  "IDF._update_design_space raises unless every coupling is a design variable and leaves the design space unchanged. "
+                  "Construction (c17_build, for any number of disciplines): IDF._build_constraints adds exactly one constraint per discipline with output "
+                  "couplings, in the order of the disciplines and none for the others (ghost log of add_constraint): the ConsistencyConstraint of (these "
+                  "couplings, this formulation) or, for a linear discipline adapter, the linear approximation OF THAT CONSTRAINT at zeros(input_dimension) with type EQ; "
+                  "IDF.__init__ takes all_couplings from the coupling structure of the disciplines, raises ValueError iff a coupling is no design variable, keeps "
+                  "the design space, and builds the constraints only after the design-space check and after storing normalize_constraints (preconditions of "
+                  "_build_constraints checked at the call site); get_top_level_disciplines of IDF (serial / parallel) and MDF; BaseFormulation."
+                  "_remove_unused_variables keeps a design variable iff it is an input of a top-level discipline (definitions kept, design space well-formed); "
+                  "MDF._update_design_space: afterwards no coupling of the MDA is a design variable and a variable is kept iff it was one, is no coupling "
+                  "and is an input of the MDA; MDF.__init__: the user's design space is the problem's and, after construction, holds no coupling of the MDA "
+                  "created by the factory and exactly its entry variables that are inputs of this MDA and no couplings.",
     "level_note": "Trusted: pyvc, numpy model (npmodel.py + plug_np_c17.py: builtin sum as a prefix-sum ghost function, empty/arange/copy), z3, reals for floats. "
                   "Known finding (reported, to be triaged): with normalize_constraints and a zero or infinite normalisation factor (coupling variable with equal "
                   "or infinite bounds - the default bounds) the consistency constraint is nan/inf or identically 0 although y_copy != y(x); region "
@@ -573,11 +606,23 @@ PROPS["C17"] = {
         "functions of their input vector with one output component per (differentiated input / coupling) component; the stored bound methods are those "
         "of the formulation (ghost field c17_formulation); a grammar is seen through `name in grammar` only; scalar-output gradient (rank 1), no "
         "differentiated-input substitute",
+        "c17_build: MDO functions are values (pyvc/plug_c17b.py: consistency(couplings, formulation) / from_disc(outputs, formulation)); the constructor "
+        "call ConsistencyConstraint(couplings, formulation) is abstracted by the first value and .coupling_function by the second (ConsistencyConstraint."
+        "__init__ itself is NOT verified); the adapter's is_linear / input_dimension (assumed to be an int), CouplingStructure.get_output_couplings (C08), "
+        "compute_linear_approximation and the numpy zeros are uninterpreted functions; add_constraint is a ghost log (default value / type / sign)",
+        "c17_build: models of BaseFormulation.__init__ (disciplines = tuple(disciplines), a new OptimizationProblem holding the very design space, arbitrary "
+        "settings) and of CouplingStructure(disciplines) (a record of name lists, uninterpreted function of the disciplines); MDOParallelChain(...) is an "
+        "opaque new object, MDAFactory.create(...) a new MDA with arbitrary couplings / input names; _build_objective_from_disc, _compute_equilibrium and _set_default_input_values_from_design_space are assumed not to touch the "
+        "variables of the design space, the constraints or the formulation's attributes; BaseFormulation.get_top_level_disciplines (abstract) returns "
+        "opaque disciplines whose input names are uninterpreted sets; a grammar is seen through its set of names; DesignSpace contracts of C02",
     ],
     "not_covered": ["same optimum across formulations (optimiser behaviour)", "BiLevel", "sparse Jacobians",
+                    "ConsistencyConstraint.__init__ (coupling function / normalisation factor / MDOFunction initialisation) and the precondition chain "
+                    "'output couplings are design variables' from IDF._build_constraints down to _get_normalization_factor",
+                    "the MDA factory (MDF.__init__ sees a new MDA with an arbitrary coupling structure / input grammar), DisciplinaryOpt.__init__ / _filter_design_space (DesignSpace.filter, get_all_inputs), "
+                    "BaseFormulation._remove_sub_scenario_dv_from_ds (sub-scenarios), a None adapter input_dimension",
                     "DisciplineAdapter (__create_discipline_input_data, _convert_jacobian_to_array: data converters / slices of the grammar)",
-                    "ConsistencyConstraint._jac_to_wrap (identity blocks; newaxis broadcasting)", "IDF._get_normalization_factor, MDF._remove_couplings_from_ds / _remove_unused_variables (variable-set facts; "
-                    "IDF._update_design_space is proved)", "matrix-valued FunctionFromDiscipline Jacobians (unmask itself is proved for matrices)"],
+                    "ConsistencyConstraint._jac_to_wrap (identity blocks; newaxis broadcasting)", "matrix-valued FunctionFromDiscipline Jacobians (unmask itself is proved for matrices)"],
 }
 
 PROPS["C14"] = {
